@@ -138,9 +138,9 @@ Proof.
 Qed.
 Print Assumptions c23_transfer_structure.
 
-(** Copy exact.  Setting: any script whose instants satisfy [inst_ok]: every move goes from one
-    side to the other, has a ByteSize that is a multiple of both granularities and ranges inside
-    the two memories; the environment hypothesis is explicit in the model of the environment and
+(** Copy exact.  Setting: any script whose instants satisfy [inst_ok]: every move has a ByteSize
+    that is a multiple of both granularities and ranges inside the memories, and goes from one
+    side to the other or, inside one side, between two ranges that do not overlap; the environment hypothesis is explicit in the model of the environment and
     in [inst_ok]: the two memories answer exactly the requests they were sent (no injected
     responses), a read with the memory's current content, a write by storing it, each request
     once, in ANY order and after ANY delay, and nobody but the data mover's own requests changes
@@ -167,16 +167,18 @@ Qed.
 Print Assumptions c23_copy_exact.
 
 (** ... and these are the bytes the source range held when the move was accepted: while a move
-    [v] is in progress no instant changes the memory of its source side (the data mover sends
-    writes only to the destination side, and no write of an earlier move is still on its way),
-    so the source range at the acknowledgment is the source range at acceptance. *)
+    [v] is in progress no instant changes the bytes of its source range (the data mover sends
+    writes only into the destination range, which is on the other side or disjoint from the
+    source range, and no write of an earlier move is still on its way), so the source range at
+    the acknowledgment is the source range at acceptance. *)
 Theorem c23_source_stable : forall b gi go tc ic oc mi mo script i e obs out e' ob,
   Forall (inst_ok gi go (length mi) (length mo)) (script ++ [i]) ->
   env_run (mk_env (dm_init b gi go tc ic oc) mi mo [] []) script = (e, obs, out) ->
   env_step e i = Ret (e', ob) ->
   d_active (e_dm e) = true ->
   let v := d_req (e_dm e) in
-  pick (v_sside v) (e_mem_in e') (e_mem_out e') = pick (v_sside v) (e_mem_in e) (e_mem_out e).
+  mem_read (pick (v_sside v) (e_mem_in e') (e_mem_out e')) (v_saddr v) (v_size v) =
+  mem_read (pick (v_sside v) (e_mem_in e) (e_mem_out e)) (v_saddr v) (v_size v).
 Proof.
   intros b gi go tc ic oc mi mo script i e obs out e' ob Hs R St Act v.
   apply Forall_app in Hs. destruct Hs as [Hs Hi]. inversion Hi as [|? ? Hi' _]; subst.
@@ -185,6 +187,76 @@ Proof.
   unfold v. rewrite <- (e_s _ _ _ _ _ E Act). apply (M Act).
 Qed.
 Print Assumptions c23_source_stable.
+
+(** The domain of c23_copy_exact is exactly the complement of the three known findings.
+    [accepted]: what parseFromCP and the memories require of a move (known sides, aligned
+    addresses, ranges inside the memories).  [in_domain]: the hypothesis of the theorem.  The three
+    classifiers are the shapes of F-C23-1 (size not a multiple of a granularity), F-C23-2 (buffer
+    smaller than a granularity: the move may never be acknowledged, so the theorem, which speaks
+    about acknowledged moves, says nothing) and F-C23-3 (same side, overlapping ranges). *)
+Definition gran_s (gi go s : N) : N := if s =? 0 then gi else go.
+
+Definition accepted (gi go : N) (li lo : nat) (v : move) : Prop :=
+  v_sside v <= 1 /\ v_dside v <= 1 /\ 0 < gran_s gi go (v_sside v) /\ 0 < gran_s gi go (v_dside v) /\
+  v_saddr v + v_size v <= N.of_nat (pick (v_sside v) li lo) /\ v_daddr v + v_size v <= N.of_nat (pick (v_dside v) li lo) /\
+  v_saddr v + v_size v < two64 /\ v_daddr v + v_size v < two64.
+
+Definition in_domain (b gi go : N) (li lo : nat) (v : move) : Prop :=
+  nice gi go v /\ gmove li lo v /\ gran_s gi go (v_sside v) <= b /\ gran_s gi go (v_dside v) <= b.
+
+Definition cls_size (gi go : N) (v : move) : bool :=
+  negb (v_size v mod gran_s gi go (v_sside v) =? 0) || negb (v_size v mod gran_s gi go (v_dside v) =? 0).
+Definition cls_buffer (b gi go : N) (v : move) : bool :=
+  (b <? gran_s gi go (v_sside v)) || (b <? gran_s gi go (v_dside v)).
+Definition cls_overlap (v : move) : bool :=
+  (v_sside v =? v_dside v) && (0 <? v_size v) && (v_saddr v <? v_daddr v + v_size v) && (v_daddr v <? v_saddr v + v_size v).
+
+Theorem c23_domain_is_complement_of_findings : forall b gi go li lo v, accepted gi go li lo v ->
+  (in_domain b gi go li lo v <->
+   cls_size gi go v = false /\ cls_buffer b gi go v = false /\ cls_overlap v = false).
+Proof.
+  intros b gi go li lo v (A1 & A2 & A3 & A4 & A5 & A6 & A7 & A8).
+  unfold in_domain, nice, gmove, cls_size, cls_buffer, cls_overlap. fold (gran_s gi go (v_sside v)) (gran_s gi go (v_dside v)).
+  rewrite !orb_false_iff, !negb_false_iff, !N.eqb_eq, !N.ltb_ge.
+  split.
+  - intros [[N1 [N2 _]] [[G1 _] [B1 B2]]]. split; [tauto|split; [tauto|]].
+    destruct (v_sside v =? v_dside v) eqn:E; [|reflexivity]. cbn [andb].
+    destruct (0 <? v_size v) eqn:Z; [|reflexivity]. cbn [andb].
+    destruct G1 as [G1|[G1|G1]]; [lia| |].
+    + assert (v_saddr v <? v_daddr v + v_size v = true -> v_daddr v <? v_saddr v + v_size v = false) by lia.
+      destruct (v_saddr v <? v_daddr v + v_size v); [rewrite H by reflexivity; reflexivity|reflexivity].
+    + assert (v_saddr v <? v_daddr v + v_size v = false) as -> by lia. reflexivity.
+  - intros [[N1 N2] [[B1 B2] O]]. split; [tauto|split; [|tauto]]. split; [|tauto].
+    destruct (v_sside v =? v_dside v) eqn:E; [|left; lia]. right. cbn [andb] in O.
+    destruct (0 <? v_size v) eqn:Z; cbn [andb] in O; [|lia].
+    destruct (v_saddr v <? v_daddr v + v_size v) eqn:L1; cbn [andb] in O; lia.
+Qed.
+Print Assumptions c23_domain_is_complement_of_findings.
+
+(** the copy theorem with its hypothesis in that form *)
+Definition inst_dom (b gi go : N) (li lo : nat) (i : instant) : Prop :=
+  Forall (in_domain b gi go li lo) (i_top i) /\ i_stray_in i = [] /\ i_stray_out i = [].
+
+Lemma inst_dom_ok b gi go li lo i : inst_dom b gi go li lo i -> inst_ok gi go li lo i.
+Proof.
+  intros [F [S1 S2]]. split; [|split; [|split; assumption]].
+  - eapply Forall_impl; [|exact F]. intros v [H _]. exact H.
+  - eapply Forall_impl; [|exact F]. intros v [_ [H _]]. exact H.
+Qed.
+
+Theorem c23_copy_exact_in_domain : forall b gi go tc ic oc mi mo script i e obs out e' ob,
+  Forall (inst_dom b gi go (length mi) (length mo)) (script ++ [i]) ->
+  env_run (mk_env (dm_init b gi go tc ic oc) mi mo [] []) script = (e, obs, out) ->
+  env_step e i = Ret (e', ob) ->
+  forall a v, g_acks (e_dm e') = g_acks (e_dm e) ++ [(a, v)] ->
+    mem_read (pick (v_dside v) (e_mem_in e') (e_mem_out e')) (v_daddr v) (v_size v) =
+    mem_read (pick (v_sside v) (e_mem_in e') (e_mem_out e')) (v_saddr v) (v_size v) /\
+    to_snap ob = Some (e_mem_in e', e_mem_out e').
+Proof.
+  intros b gi go tc ic oc mi mo script i e obs out e' ob Hs. apply c23_copy_exact.
+  eapply Forall_impl; [|exact Hs]. intros x. apply inst_dom_ok.
+Qed.
+Print Assumptions c23_copy_exact_in_domain.
 
 (** Link to the implementation: when the correspondence check succeeds on a run case, the
     acknowledgments OBSERVED on the real data mover's Top port (ro_ticks c) are, in order, the
@@ -237,5 +309,25 @@ Example c23_nonvacuous :
 Proof.
   split.
   - repeat constructor; vm_compute; reflexivity.
+  - vm_compute. repeat split.
+Qed.
+
+(** Non-vacuity of the same-side case: a move inside one memory between two disjoint ranges
+    (0..31 -> 64..95, granularity 16, buffer of one granule), the memory answering youngest
+    first; the instants are in the domain and the copy is exact while the source range is intact. *)
+Definition same_side_script : list instant :=
+  mk_instant [mk_move 7 2 0 64 32 0 0] [] [] [] [] 0 1 1 :: repeat lifo 40.
+
+Example c23_nonvacuous_same_side :
+  Forall (inst_dom 16 16 16 128 128) same_side_script /\
+  let '(e, obs, oc) := env_run (mk_env (dm_init 16 16 16 2 3 3) (pat 128 1) (pat 128 101) [] []) same_side_script in
+  oc = 0 /\ length (flat_map to_acks obs) = 1%nat /\
+  mem_read (e_mem_in e) 64 32 = mem_read (pat 128 1) 0 32 /\ mem_read (e_mem_in e) 0 32 = mem_read (pat 128 1) 0 32.
+Proof.
+  split.
+  - constructor.
+    + unfold inst_dom. cbn [i_top i_stray_in i_stray_out]. split; [|split; reflexivity].
+      constructor; [|constructor]. unfold in_domain, nice, gmove, gran_s, pick. cbn. repeat split; try lia; try (right; left; lia).
+    + apply Forall_forall. intros x Hx. apply repeat_spec in Hx. subst x. unfold inst_dom, lifo. cbn. repeat split; constructor.
   - vm_compute. repeat split.
 Qed.
